@@ -11,6 +11,8 @@ NOTE = ("Trusted: z3 5.1 (sample cross-checked with cvc5 1.4), NumPy object-dtyp
         "real arithmetic stands in for float64 (counterexamples are replayed in float64 before being reported).")
 
 CLAIMED = {
+ 'C01': dict(text="v^T A u = a(u_h, v_h), b.v = l(v_h), Functional = v^T A u decided as identities in symbolic vertex coordinates and coefficient vectors for every enumerated (mesh class, element, integrand, basis kind) configuration; real _assemble/interpolate/basis constructors executed",
+             tech="symbolic execution of assembly + basis construction on symbolic geometry; polynomial/rational identity queries (z3)", ref="4/C01"),
  'C05': dict(text="enforce/penalize/condense/solve run on matrices whose stored entries, rhs, prescribed values and solver output are symbolic; row/rhs identities and the implication 'condensed solution => original equations on kept rows' decided for all values, over all enumerated sparsity patterns n<=3 (n=4 sampled) and all index sets",
              tech="symbolic execution of skfem.utils on a differentially validated sparse stub + z3 identities/implications", ref="4/C05"),
  'C20': dict(text="every integrand helper (NumPy and JAX source) equals its index-sum definition for all tensor entries (2x2, 3x3, trailing axes), and the two variants agree; NonlinearForm/JAX tracing is outside the claim",
